@@ -27,7 +27,6 @@ import "encoding/json"
 import "io"
 import "os"
 import "sort"
-import "strconv"
 import "strings"
 /* -------------------------------------------------------------------------- */
 type DenseFloat64Vector []float64
@@ -297,11 +296,11 @@ func (v *DenseFloat64Vector) Import(filename string) error {
     }
     fields := strings.Fields(l)
     for i := 0; i < len(fields); i++ {
-      value, err := strconv.ParseFloat(fields[i], 64)
+      value, err := parse_float64(fields[i])
       if err != nil {
         return fmt.Errorf("invalid table")
       }
-      *v = append(*v, float64(value))
+      *v = append(*v, value)
     }
   }
   return nil
